@@ -165,6 +165,16 @@ func BuildModel(u *Universe, c *Concrete, res *tlc.Result) (*Model, error) {
 		if !ok {
 			return nil, fmt.Errorf("universe %s: no @EXP record for a state (%d records, %d states)", u.Name, len(exps), len(m.G.Order))
 		}
+		if selfTest == "exp-code" && n.Init && len(e.PT1) > 0 {
+			cp := *e
+			cp.PT1 = append([]int(nil), e.PT1...)
+			if cp.PT1[0] == RAcc {
+				cp.PT1[0] = 21
+			} else {
+				cp.PT1[0] = RAcc
+			}
+			e = &cp
+		}
 		m.Exp[n] = e
 		bl := map[string][]int{}
 		for i, ed := range n.Out {
